@@ -1,10 +1,13 @@
 SPECIFICATION Spec
 CONSTANTS
   NTok = 3
-  Lifetime = 4
-  MaxTime = 7
+  Lifetimes = {8, 400}
+  MaxTime = 15
   Injections = 2
+  RenewEarly = 2
+  LateFrom = 11
   Dev_ExpiryWrongKey = FALSE
+  Dev_PrefixOnly = FALSE
   AsIs_ExpiryWrongKey = FALSE
 INVARIANTS InvEmit
 CHECK_DEADLOCK FALSE
